@@ -633,7 +633,17 @@ def _bounded_worker(args):
             continue
         names, conds = sem.leaves(t)
         gs = sorted(names)
-        for combo in _it.product(range(scope + 1), repeat=len(gs)):
+        combos = list(_it.product(range(scope + 1), repeat=len(gs)))
+        if 'IfThen' in repr(t) and len(gs) <= 3:
+            # a goal need not behave the same every time it is called: which answer of a condition is the first one
+            # matters where something commits - one goal at a time gets an activation-dependent behaviour
+            for i_ in range(len(gs)):
+                for dep in ((0, 1), (1, 0)):
+                    for rest in _it.product((1, 2), repeat=len(gs) - 1):
+                        c_ = list(rest)
+                        c_.insert(i_, dep)
+                        combos.append(tuple(c_))
+        for combo in combos:
             env = {g: (k, False) for g, k in zip(gs, combo)}
             runs += 1
             a = sem.run_src(t, env)
@@ -642,7 +652,7 @@ def _bounded_worker(args):
                 if len(problems) < 3:
                     problems.append(('viol', sem.show(t), 'the body  %s  compiles to  %s , which does not behave like it: with %s the source '
                                      'yields "%s" but the compiled code yields "%s"' % (
-                                         sem.show(t), sem.show_code(code), ', '.join('%s: %d solution(s)' % (g, k[0]) for g, k in sorted(env.items())),
+                                         sem.show(t), sem.show_code(code), ', '.join('%s: %s solution(s)' % (g, k[0]) for g, k in sorted(env.items()) if g != '#activations'),
                                          sem._show_trace(a), sem._show_trace(b))))
                 break
     return n, runs, problems
